@@ -317,7 +317,7 @@ class Check(PropertyCheck):
         if framing == "cl": fields.insert(rng.randint(0, len(fields)), (rng.pick([b"Content-Length", b"content-length"]), b"%d" % len(body)))
         elif framing == "chunked": fields.append((b"Transfer-Encoding", b"chunked"))
         if rng.chance(0.1): fields.append((b"Connection", rng.pick([b"keep-alive", b"close"])))
-        return {"status": status, "reason_hex": hx(rng.pick([b"OK", b"", b"Some Reason", b"Not Found"])), "fields": P(fields),
+        return {"status": status, "reason_hex": hx(rng.pick([b"OK", b"", b"Some Reason", b"Not Found", b"caf\xe9", b"R\xc3\xa9ason"])), "fields": P(fields),
                 "body_hex": hx(body), "framing": framing, "chunks": rng.randint(1, 3)}
 
     def mutate_block(self, rng, block, is_req):
@@ -775,6 +775,12 @@ class Check(PropertyCheck):
             cl = [v for k, v in rs.fields if k.lower() == b"content-length"]
             if not rs.body and cl and all(re.fullmatch(rb"[0-9]+", v) for v in cl) and any(int(v) > 0 for v in cl):
                 return "F-C06b"
+        # F-C06c: the same hole on the request side: content-length > 0 announced, stream ended without a DATA frame
+        if case["cv"] == 2 and case["sv"] == 1 and failure.startswith("upstream HTTP/1 request is incomplete"):
+            rq = Src(case, "req")
+            cl = [v for k, v in rq.fields if k.lower() == b"content-length"]
+            if not rq.body and cl and all(re.fullmatch(rb"[0-9]+", v) for v in cl) and any(int(v) > 0 for v in cl):
+                return "F-C06c"
         return None
 
     def neighbours(self, case, rng):
